@@ -131,6 +131,21 @@ func (r *Report) CtorFaithful(key string, fnKeys ...string) {
 				}
 			}
 		}
+		// which parameter (by position) or constant feeds which field is frozen too: two parameters of the same type
+		// stored crosswise, or a constant stored where a parameter belongs, is as wrong as a transformation
+		if want, ok := faithfulCtorMap[fk]; ok && bad == "" && n > 0 {
+			got := ctorMapping(fn)
+			for _, f := range sortedKeys(want) {
+				if g, has := got[f]; !has {
+					bad = fmt.Sprintf("field %s is no longer set from %s", f, want[f])
+				} else if g != want[f] {
+					bad = fmt.Sprintf("field %s is set from %s, the reviewed constructor sets it from %s", f, g, want[f])
+				}
+				if bad != "" {
+					break
+				}
+			}
+		}
 		switch {
 		case n == 0:
 			r.Unres(k, d, "no field stores found (not a literal constructor any more)")
@@ -140,6 +155,40 @@ func (r *Report) CtorFaithful(key string, fnKeys ...string) {
 			r.OK(k, d, w.FnPos(fn), fmt.Sprintf("%d fields", n))
 		}
 	}
+}
+
+// ctorMapping: field name -> "#i" (the i-th parameter) or "const:v" for the stores of a literal constructor.
+func ctorMapping(fn *ssa.Function) map[string]string {
+	out := map[string]string{}
+	for _, b := range fn.Blocks {
+		for _, in := range b.Instrs {
+			st, ok := in.(*ssa.Store)
+			if !ok {
+				continue
+			}
+			fa, ok := st.Addr.(*ssa.FieldAddr)
+			if !ok {
+				continue
+			}
+			if _, isAlloc := fa.X.(*ssa.Alloc); !isAlloc {
+				continue
+			}
+			f := fieldName(fa.X.Type(), fa.Field)
+			switch v := seeThrough(st.Val).(type) {
+			case *ssa.Parameter:
+				for i, p := range fn.Params {
+					if p == v {
+						out[f] = fmt.Sprintf("#%d", i)
+					}
+				}
+			case *ssa.Const:
+				out[f] = "const:" + constString(v)
+			default:
+				out[f] = "expr"
+			}
+		}
+	}
+	return out
 }
 
 // dumpFaithfulCtors lists the New* functions of the repo's types packages that are faithful today (maintenance).
@@ -164,4 +213,21 @@ func dumpFaithfulCtors(w *World) {
 		}
 		fmt.Println(ok, fk)
 	}
+	// the frozen field <- parameter table (paste into ctors_frozen.go)
+	fmt.Println("var faithfulCtorMap = map[string]map[string]string{")
+	for _, mod := range sortedKeys(faithfulCtors) {
+		for _, fk := range faithfulCtors[mod] {
+			fn := w.Fn(fk)
+			if fn == nil {
+				continue
+			}
+			m := ctorMapping(fn)
+			var parts []string
+			for _, f := range sortedKeys(m) {
+				parts = append(parts, fmt.Sprintf("%q: %q", f, m[f]))
+			}
+			fmt.Printf("\t%q: {%s},\n", fk, strings.Join(parts, ", "))
+		}
+	}
+	fmt.Println("}")
 }
